@@ -4,6 +4,7 @@ import PhyVerif.Driver.C01
 import PhyVerif.Model.C04
 import PhyVerif.Model.C04c
 import PhyVerif.Model.C04f
+import PhyVerif.Model.C04h
 namespace PhyVerif.Driver
 open Lean PhyVerif.C04
 
@@ -55,6 +56,21 @@ def jFullErr04 : FullErr → Json
   | .shape w => Json.mkObj [("error", Json.str ("shape " ++ w))]
   | .curatedWithoutTemplates => Json.mkObj [("error", Json.str "curated_without_templates")]
 
+def jAnyErr04 : AnyErr → Json
+  | .load e => jLoadErr04 e
+  | .emptyTrain => Json.mkObj [("error", Json.str "empty_train")]
+  | .dtype w => Json.mkObj [("error", Json.str ("dtype " ++ w))]
+
+/-- the outcome of `C04.loadAny` (error or null) and the names of the directory it leaves, in EVERY outcome -/
+def jAny04 (bad : List String) (d : Dir) : Json :=
+  let r := loadAny (fun a => a) bad d
+  Json.mkObj [("outcome", match r.1 with | .error e => jAnyErr04 e | .ok _ => Json.null),
+              ("early", match r.1 with | .error e => Json.bool e.early | .ok _ => Json.null),
+              ("files_after", jList (fun (f : String × Arr) => Json.str f.1) r.2),
+              ("clusters_copy", match r.2.lookup "spike_clusters.npy" with
+                 | some a => if (d.lookup "spike_clusters.npy").isNone then jArr04 a else Json.null
+                 | none => Json.null)]
+
 /-- `load_full`: the whole of `_load_data` (`C04.loadFull`).  Raw data files are given by their sizes
 in bytes (rows through `C01.memmapRows`, cells are ids `row * ncd + col` of the concatenated
 recording); `items` are the row indices at which `model.traces[...]` is evaluated. -/
@@ -75,12 +91,17 @@ def runLoadFull04 (j : Json) : R Json := do
   let items ← match j.getObjVal? "items" with
     | .ok v => asList asItem v
     | .error _ => pure []
+  let bad ← match j.getObjVal? "bad" with
+    | .ok v => asList asStr v
+    | .error _ => pure []
+  let any := jAny04 bad d
+  let withAny (o : Json) : Json := o.setObjVal! "any" any
   match loadFull (β := Nat) (fun a => a) rate tden ncd one raw d with
-  | .error e => pure (jFullErr04 e)
+  | .error e => pure (withAny (jFullErr04 e))
   | .ok (fv, d') =>
     match loadFeatures d' fv.nTemplates, loadTemplateFeatures d' fv.nTemplates with
-    | .error e, _ => pure (jFullErr04 e)
-    | _, .error e => pure (jFullErr04 e)
+    | .error e, _ => pure (withAny (jFullErr04 e))
+    | _, .error e => pure (withAny (jFullErr04 e))
     | .ok feats, .ok tfeats =>
     let v := fv.base
     let positions := match fv.positions with
@@ -102,6 +123,8 @@ def runLoadFull04 (j : Json) : R Json := do
       ("spike_attributes", Json.mkObj (fv.spikeAttributes.map fun na => (na.1, jArr04 na.2))),
       ("traces", traces), ("n_samples", jOpt jNat fv.nSamples), ("duration", jRat fv.duration),
       ("features", jOpt jSparse04 feats), ("template_features", jOpt jSparse04 tfeats),
+      ("template_ids", jNats v.templateIds), ("cluster_ids", jNats v.clusterIds),
+      ("probes", jNats fv.probes), ("n_probes", jNat fv.nProbes), ("any", any),
       ("files_after", jList (fun (f : String × Arr) => Json.str f.1) d')])
 
 def runC04 (op : String) (j : Json) : R Json := do
